@@ -412,8 +412,9 @@ static void data_print_blocks(FILE *fp,
                               const double scale,
                               const double binval)
 {
-    uint64_t nfilled = (uint64_t)(binval / scale);
-    const double rem = binval / scale - (double)nfilled;
+    const double ratio = (scale > 0.0) ? binval / scale : 0.0;
+    uint64_t nfilled = (uint64_t)ratio;
+    const double rem = ratio - (double)nfilled;
 
     while (nfilled-- > 0) {
         const int r = fputc(symbol_full, fp);
@@ -494,7 +495,7 @@ void cmi_dataset_histogram_fill(struct cmi_dataset_histogram *hp,
             bin = hp->num_bins - 1u;
         }
         else {
-            bin = 1u + (uint16_t)((xa[ui] - hp->low_lim) / hp->binsize);
+            bin = (hp->binsize > 0.0) ? 1u + (uint16_t)((xa[ui] - hp->low_lim) / hp->binsize) : 1u;
         }
 
         /* Add it to that bin and note the high-water mark */
